@@ -224,11 +224,19 @@ def h_map(I, fi):
             seen = havoc(fr, fresh)
             P.assume(inv(fr, seen))
             items = I_.eval(node.iter, fr)
+            # the loops must range over EVERY chain and EVERY entry (the after-loop state assumes the witness has been processed)
+            P.check("map.iterates-all-chains", isinstance(items, SymSeq) and not items.tail and P.z(items.length) == P.z(results.n) and str(items.key) == "results.items",
+                    "the outer loop ranges over all items of the results mapping", kind="post")
             j = items.fresh_index(I_, "chain")
             I_.assign_target(node.target, items.at(I_, j), fr)
             seq = I_.eval(inner[0].iter, fr)  # enumerate(chain_results["trace"])
+            ck = I_.to_num(fr.vars[node.target.elts[0].id])
             e = seq.fresh_index(I_, "entry")
-            I_.assign_target(inner[0].target, seq.at(I_, e), fr)
+            elem = seq.at(I_, e)
+            P.check("map.iterates-all-entries", isinstance(seq, SymSeq) and not seq.tail and P.z(seq.length) == P.z(ntr(ck)) and isinstance(elem, tuple) and len(elem) == 2
+                    and I_.equal(elem[0], e) is True and isinstance(elem[1], Entry) and I_.equal(elem[1].i, e) is True and I_.equal(elem[1].c, ck) is True,
+                    "the inner loop ranges over all entries of the chain, each paired with its own position", kind="post")
+            I_.assign_target(inner[0].target, elem, fr)
             dsl.cover(I_, "map.step")
             I_.exec_block(inner[0].body, fr)
             c = I_.to_num(fr.vars[node.target.elts[0].id])
